@@ -326,6 +326,43 @@ theorem C15_complete_preceded_prefiltered (c : Cfg) (as bs : List Row)
       intro b' hb'
       exact (mem_filter.mp (mem_groupRows.mp (latestP_some hb').1).1).2
 
+/-- Why the pre-filter of the per-type sub-queries is load-bearing, in one statement: on the same
+data and the same query (WHERE on the partner side only, one link value: `a@1`, `b@2` failing,
+`b@3` passing — and its PRECEDED BY mirror `b@5` passing, `b@7` failing, `a@10`) the a-row has a
+qualifying partner, the matcher on the unfiltered rows does not match it, the matcher on the
+pre-filtered rows does. With `C15_complete_prefiltered` / `C15_complete_preceded_prefiltered`
+(matcher ∘ prefilter: matched ⇔ a qualifying partner exists, at full strength) this is the
+decision logic the end-to-end path relies on: dropping the WHERE from the sub-queries
+(`create_sub_query`) breaks the 'if' direction of the property. -/
+theorem C15_prefilter_is_load_bearing :
+    (∃ b ∈ wB, Qualifies wCfg (wRow 0 1 none) b) ∧
+    ¬ Matched wCfg wA wB (keysOf wCfg wA wB) (wRow 0 1 none) ∧
+    Matched wCfg (prefilterA wCfg wA) (prefilterB wCfg wB)
+      (keysOf wCfg (prefilterA wCfg wA) (prefilterB wCfg wB)) (wRow 0 1 none) ∧
+    (∃ b ∈ uB, Qualifies uCfg (wRow 0 10 none) b) ∧
+    ¬ Matched uCfg uA uB (keysOf uCfg uA uB) (wRow 0 10 none) ∧
+    Matched uCfg (prefilterA uCfg uA) (prefilterB uCfg uB)
+      (keysOf uCfg (prefilterA uCfg uA) (prefilterB uCfg uB)) (wRow 0 10 none) := by
+  have q1 : ∃ b ∈ wB, Qualifies wCfg (wRow 0 1 none) b := by
+    refine ⟨wRow 1 3 (some 1), by simp [wB], ⟨by decide, by decide⟩, ?_, by decide, by decide⟩
+    show (if wCfg.preceded then _ else _)
+    decide
+  have q2 : ∃ b ∈ uB, Qualifies uCfg (wRow 0 10 none) b := by
+    refine ⟨wRow 0 5 (some 1), by simp [uB], ⟨by decide, by decide⟩, ?_, by decide, by decide⟩
+    show (if uCfg.preceded then _ else _)
+    decide
+  refine ⟨q1, ?_, ?_, q2, ?_, ?_⟩
+  · rintro ⟨p, hp, _⟩
+    have : matchSequences wCfg none wA wB (keysOf wCfg wA wB) = [] := by decide
+    rw [this] at hp
+    cases hp
+  · exact (C15_complete_prefiltered wCfg wA wB rfl _ (by simp [wA])).mpr q1
+  · rintro ⟨p, hp, _⟩
+    have : matchSequences uCfg none uA uB (keysOf uCfg uA uB) = [] := by decide
+    rw [this] at hp
+    cases hp
+  · exact (C15_complete_preceded_prefiltered uCfg uA uB rfl _ (by simp [uA])).mpr q2
+
 /-! ## LIMIT -/
 
 /-- LIMIT n returns at most n matched sequences, and exactly the first n of the unlimited
